@@ -28,6 +28,8 @@
 # endif
 #endif
 
+#include "support/MuscleVerifHooks.h"
+
 namespace muscle {
 
 #if defined(MUSCLE_USE_MUTEXES_FOR_ATOMIC_OPERATIONS)
@@ -73,6 +75,9 @@ public:
      */
    MUSCLE_NODISCARD inline bool AtomicIncrement()
    {
+#ifdef MUSCLE_VERIF_HOOKS
+      if (muscle_verif::g_hooks) {muscle_verif::g_hooks->Yield(); const bool r = (++_count == 1); muscle_verif::g_hooks->Yield(); return r;}
+#endif
 #if defined(MUSCLE_SINGLE_THREAD_ONLY) || !defined(MUSCLE_AVOID_CPLUSPLUS11)
       return (++_count == 1);
 #elif defined(MUSCLE_USE_MUTEXES_FOR_ATOMIC_OPERATIONS)
@@ -112,6 +117,9 @@ public:
      */
    MUSCLE_NODISCARD inline bool AtomicDecrement()
    {
+#ifdef MUSCLE_VERIF_HOOKS
+      if (muscle_verif::g_hooks) {muscle_verif::g_hooks->Yield(); const bool r = (--_count == 0); muscle_verif::g_hooks->Yield(); return r;}
+#endif
 #if defined(MUSCLE_SINGLE_THREAD_ONLY) || !defined(MUSCLE_AVOID_CPLUSPLUS11)
       return (--_count == 0);
 #elif defined(MUSCLE_USE_MUTEXES_FOR_ATOMIC_OPERATIONS)
